@@ -99,3 +99,51 @@ for nm, pat in [("hybrid-rerank", {"call": "rerank_with_gel"}), ("fusion", {"cal
     R.fclause("C20", "no-escape/quality:%s" % nm, "noescape", AQ, sites=pat)
 R.fclause("C20", "no-escape/sidecar-write", "noescape", "clematis/engine/snapshot.py:_write_sidecar_meta",
           sites={"call": "atomic_write_text"})
+
+# ---------------------------------------------------------------- C19: triple gate, wall budget and fail-soft of the compute step
+RF = "clematis/engine/orchestrator/core.py:_run_reflection_if_enabled"
+R.fclause("C19", "reflection/compute-gate", "gate", RF, sites={"call": "reflect_fn"},
+          gate="not getattr(ctx, '_dry_run_until_t4', False) and allow_reflection and plan_reflect")
+R.fclause("C19", "reflection/defn-allow_reflection", "custom", RF,
+          fn=defn_clause("allow_reflection", "bool(t3cfg.get('allow_reflection', False))"))
+R.fclause(["C19", "C20"], "reflection/compute-no-escape", "noescape", RF, sites={"call": "reflect_fn"})
+R.fclause("C19", "reflection/compute-called-once", "count", RF, sites={"call": "reflect_fn"}, n=1, no_loop=True)
+
+
+def reflection_drops_entries(cl, mod, cls, func):
+    """on error and on wall-budget overrun the result carries memory_entries == []"""
+    out = []
+    # (a) the handler of the try around reflect_fn(...) rebuilds `result` with memory_entries=[]
+    sites = find_sites(func, lambda n: match_site(n, {"call": "reflect_fn"}))
+    ok_a = False
+    for node, info in sites:
+        for tr, part in info.tries:
+            if part != "body":
+                continue
+            for h in tr.handlers:
+                for n in ast.walk(h):
+                    if isinstance(n, ast.Assign) and ast.unparse(n.targets[0]) == "result" and isinstance(n.value, ast.Call):
+                        for kw in n.value.keywords:
+                            if kw.arg == "memory_entries" and ast.unparse(kw.value) == "[]":
+                                ok_a = True
+    out.append(result(cl["name"] + "/on-error", "proved" if ok_a else "failed",
+                      "" if ok_a else "the except handler around reflect_fn(...) no longer rebuilds result with memory_entries=[]"))
+    # (b) the wall-budget branch: every arm of `if wall_ms_val is not None and elapsed_ms > wall_ms_val` empties the entries
+    ok_b = False
+    for n in ast.walk(func):
+        if isinstance(n, ast.If) and ast.unparse(n.test) == "wall_ms_val is not None and elapsed_ms > wall_ms_val":
+            body = n.body
+            if len(body) == 1 and isinstance(body[0], ast.Try):
+                t = body[0]
+                main_ok = any(isinstance(x, ast.Assign) and ast.unparse(x.targets[0]) == "result" and isinstance(x.value, ast.Call)
+                              and any(kw.arg == "memory_entries" and ast.unparse(kw.value) == "[]" for kw in x.value.keywords)
+                              for x in t.body)
+                hand_ok = all(any(isinstance(x, ast.Assign) and ast.unparse(x.targets[0]) == "result.memory_entries"
+                                  and ast.unparse(x.value) == "[]" for x in ast.walk(h)) for h in t.handlers)
+                ok_b = main_ok and hand_ok
+    out.append(result(cl["name"] + "/on-timeout", "proved" if ok_b else "failed",
+                      "" if ok_b else "the wall-budget branch no longer drops memory_entries on every arm"))
+    return out
+
+
+R.fclause("C19", "reflection/drops-entries", "custom", RF, fn=reflection_drops_entries)
